@@ -2716,6 +2716,15 @@ func (s *Server) serveConnCounted(c net.Conn, countConcurrency bool) error {
 			if bw == nil {
 				bw = acquireWriter(ctx)
 			}
+			if ctx.Response.bodyStream != nil && bw.Buffered() > 0 {
+				// Writing a body stream can fail half-way (size mismatch, Read
+				// error or panic), in which case the connection is dropped
+				// together with whatever is still buffered. Responses to earlier
+				// pipelined requests must not be lost or truncated by that.
+				if err = bw.Flush(); err != nil {
+					break
+				}
+			}
 			if err = writeResponse(ctx, bw); err != nil {
 				break
 			}
